@@ -178,6 +178,47 @@ def crash_case(case, model, rep):
         repo.done()
 
 
+def multikill_case(case, model, rep):
+    """several consecutive runs are killed while their children execute; after every kill the last
+    completed run is still what the read APIs return. `max` = None leaves max_retained_runs out of the
+    configuration (the documented default applies)."""
+    seed, max_runs, prior, kills = case["seed"], case["max"], case["prior"], case["kills"]
+    repo, rng = setup(seed, max_runs, prior)
+    width = max_runs if max_runs else 10
+    try:
+        before = snapshot(repo, width)
+        for k in range(kills):
+            plan = crash_plan()
+            for key in plan:
+                plan[key]["sleep_ms"] = 400
+            repo.set_plan(plan)
+            p = repo.popen(["run", "-c", "build", "test"])
+            time.sleep(rng.pick([0.15, 0.25, 0.4]))
+            killed = p.poll() is None
+            scen.kill_tree(p)
+            p.communicate()
+            scen.reap_helpers(repo)
+            rep.evaluations += 1
+            rep.count("consecutive_kills")
+            if not killed:
+                return
+            after = snapshot(repo, width)
+            problems = [name for name in ("result", "logs", "checkpoint") if after[name] != before[name]]
+            if problems:
+                rep.oracle_fail({"kind": "a killed run damaged previously recorded state", "case": case, "after_kill": k + 1,
+                                 "problems": [n + " changed" for n in problems],
+                                 "result_before": before["result"] is not None, "result_after": after["result"] is not None})
+                return
+        repo.set_plan({})
+        rc, j, out, err = repo.mono("run", "-c", "build")
+        if rc != 0 or j is None:
+            rep.oracle_fail({"kind": "the run after a killed run does not succeed", "case": case, "rc": rc, "stderr": err[-400:]})
+            return
+        rep.nontrivial_case(case)
+    finally:
+        repo.done()
+
+
 def main():
     args = scen.parse_args(sys.argv)
     t0 = time.time()
@@ -204,7 +245,14 @@ def main():
             seed = rng.next()
             for _ in range((30 if args["tier"] == "thorough" else 5) * args["budget"]):
                 cases.append({"seed": seed, "max": mx, "prior": prior, "lower_to": low, "delay_ms": rng.range(1, 140)})
+    multi = [c for c in cases if "kills" in c]
+    cases = [c for c in cases if "kills" not in c]
+    if args["budget"] > 0:
+        for (mx, prior, kills) in ([(3, 2, 3), (2, 1, 2), (None, 2, 2)] if args["tier"] == "quick" else
+                                   [(3, 2, 3), (2, 1, 2), (None, 2, 2), (5, 3, 5), (None, 1, 3), (2, 2, 4)]):
+            multi.append({"seed": rng.next(), "max": mx, "prior": prior, "kills": kills})
     scen.run_cases(lambda c: crash_case(c, model, rep), cases, rep, 10)
+    scen.run_cases(lambda c: multikill_case(c, model, rep), multi, rep, 4)
     scen.finish(args, rep, t0, model)
 
 
